@@ -11,7 +11,7 @@ RULE = ("C05 datasets (multi-page chunks, v1/v2 pages, nulls, categoricals, hive
         ">=1 must/reject row; distinct = distinct (operator set, dtype families, program shape, partition cond, mask kind) tuples")
 ASSUMPTIONS = ["rows whose outcome hinges on a missing-like cell under a negative operator (!=, not in) are don't-care",
                "ground truth = unfiltered read of the same handle", "a filtered call that raises is counted as refused, not judged"]
-CASE_TIMEOUT = 300
+CASE_TIMEOUT = 120
 
 from vf.gen import datasets as D
 from vf.gen import filters as FG
@@ -38,7 +38,107 @@ def gen_cases(tier, seed):
         cases.append({"id": "NI/%d/%d" % (seed, j), "frame": {"seed": int(rng.integers(0, 2 ** 31)), "nrows": int(rng.integers(12, 60)), "cols": cols, "index": None},
                       "opts": {"file_scheme": ["simple", "hive"][j % 2], "row_group_offsets": [None, 7, 20][j % 3], "has_nulls": True, "stats": True},
                       "page_size": [None, 64][j % 2], "dpv": 1, "pseed": int(rng.integers(0, 2 ** 31)), "nprog": 40})
+    # one handle kept across edits of the dataset made through it: the same filters before and after write_row_groups / remove_row_groups
+    for j in range(30 if tier == "quick" else 500):
+        c = D.random_dataset(rng, "KH/%d/%d" % (seed, j), scheme=["simple", "hive", "hive", "drill"][j % 4], pkinds=D.BENIGN_PKINDS,
+                             value_kinds=["int64", "float64", "str", "Int32", "dt_ns", "bool"], max_rows=60, min_rows=8, max_cols=3)
+        c["opts"]["has_nulls"] = True
+        c["dpv"] = 1
+        c["page_size"] = None
+        c["pseed"] = int(rng.integers(0, 2 ** 31))
+        if not isinstance(c["opts"].get("row_group_offsets"), int) or c["opts"]["row_group_offsets"] > 10:
+            c["opts"]["row_group_offsets"] = [3, 7, 10][j % 3]
+        c["frame"]["index"] = None
+        c["kept_handle"] = {"append_seed": int(rng.integers(0, 2 ** 31)), "append_rows": int(rng.integers(4, 30)), "remove": [[0], [1], [0, 2]][j % 3]}
+        cases.append(c)
     return cases
+
+
+def run_kept_handle(case, st, colinfo, path, rng):
+    """Same filters on ONE handle: fresh, again, after write_row_groups on it, after remove_row_groups on it (fresh open = the model)."""
+    import copy
+    import fastparquet
+    from vf.props import common as C
+    from vf.mon import predicate as P
+    res, counters, pf = st["res"], st["counters"], st["pf"]
+    f32 = {str(c) for c in st["flat"].columns if str(st["flat"][c].dtype) == "float32"}
+    progs = []
+    tries = 0
+    while len(progs) < 5 and tries < 60:
+        tries += 1
+        prog = FG.make_program(rng, colinfo)
+        try:
+            P.judgeable(prog, st["flat"])
+            P.eval_rows(P.adapt_program(prog, f32, set()), st["cols"], st["n"])
+            pf.to_pandas(columns=["rid"], filters=prog, row_filter=True, index=False)
+        except Exception:
+            continue
+        progs.append(prog)
+    kh = case["kept_handle"]
+    fr = copy.deepcopy(case["frame"])
+    fr["seed"] = kh["append_seed"]
+    fr["nrows"] = kh["append_rows"]
+    fr["rid0"] = case["frame"]["nrows"]
+    dfa = D.build_dataset_frame({"frame": fr})
+    steps = ["again", "write_row_groups", "remove_row_groups"]
+    for step in steps:
+        if step == "write_row_groups":
+            try:
+                pf.write_row_groups(dfa, row_group_offsets=[0, max(1, len(dfa) // 2)] if len(dfa) > 1 else None)
+            except Exception as e:
+                counters["kept_handle_edit_refused"] = counters.get("kept_handle_edit_refused", 0) + 1
+                res.setdefault("notes", []).append({"step": step, **C.exc_shape(e)})
+                continue
+        elif step == "remove_row_groups":
+            if pf.file_scheme == "simple":
+                continue
+            rgs = [pf.row_groups[i] for i in kh["remove"] if i < len(pf.row_groups) - 1]
+            if not rgs:
+                continue
+            try:
+                pf.remove_row_groups(rgs)
+            except Exception as e:
+                counters["kept_handle_edit_refused"] = counters.get("kept_handle_edit_refused", 0) + 1
+                res.setdefault("notes", []).append({"step": step, **C.exc_shape(e)})
+                continue
+        if step != "again":
+            # the model is what a fresh open reads without filters
+            fresh = fastparquet.ParquetFile(path)
+            flat = fresh.to_pandas(index=False)
+            nr = [rg.num_rows for rg in fresh.row_groups]
+            offs = np.concatenate([[0], np.cumsum(nr)]).astype(int)
+            rids = flat["rid"].tolist()
+            st = dict(st, flat=flat, cols=P.frame_columns(flat), rids=rids, pos={r: i for i, r in enumerate(rids)}, n=len(flat),
+                      rg_rows=[list(range(offs[i], offs[i + 1])) for i in range(len(nr))])
+            counters["kept_handle_edits"] = counters.get("kept_handle_edits", 0) + 1
+        # the order turns round at every step, so the filters used last before an edit are the first ones used after it
+        order = list(enumerate(progs))
+        if steps.index(step) % 2:
+            order.reverse()
+        for pi, prog in order:
+            desc = FG.describe(prog)
+            try:
+                verdicts = P.eval_rows(P.adapt_program(prog, f32, set()), st["cols"], st["n"])
+            except Exception:
+                continue
+            ocols = ["rid"] + [str(c) for c in st["flat"].columns if c != "rid"][:2]
+            try:
+                if pi % 2:
+                    cnt = int(pf.count(filters=prog, row_filter=True))
+                    got = pf.to_pandas(columns=ocols, filters=prog, row_filter=True, index=False)
+                else:
+                    got = pf.to_pandas(columns=ocols, filters=prog, row_filter=True, index=False)
+                    cnt = int(pf.count(filters=prog, row_filter=True))
+            except Exception as e:
+                if isinstance(e, TypeError) or C.exc_shape(e).get("where") == "util.py:val_from_meta":
+                    counters["refused"] = counters.get("refused", 0) + 1       # same reading of refusals as the main family
+                    continue
+                groups_ = P.normalise_program(prog)
+                res["failures"].append({"kind": "filtered_read_raised", "program": desc, "kept_handle_step": step, "read_columns_multi_page": [],
+                                        "ops": sorted({op for g in groups_ for _, op, _ in g}), **st["info"], **C.exc_shape(e)})
+                continue
+            _judge(st, prog, desc, got, cnt, ocols, verdicts, extra_ctx={"kept_handle_step": step})
+            counters["kept_handle_programs_judged"] = counters.get("kept_handle_programs_judged", 0) + 1
 
 
 def run_case(case):
@@ -75,6 +175,15 @@ def run_case(case):
                 "multi_page_columns": sorted(mp)}
         counters["datasets_multi_page"] = 1 if mp else 0
         counters["datasets_single_page"] = 0 if mp else 1
+        if case.get("kept_handle"):
+            st = {"res": res, "counters": counters, "feats": feats, "flat": flat, "cols": cols, "rids": rids, "pos": pos, "rg_rows": rg_rows, "mp": mp, "pf": pf,
+                  "info": info, "n": n}
+            run_kept_handle(case, st, colinfo, path, rng)
+            res["outcome"] = "ok"
+            res["nontrivial"] = bool(feats)
+            res["features"] = sorted(feats)
+            res["sample"] = {"rows": n, "row_groups": len(rg_rows), **info, "kept_handle": case["kept_handle"]}
+            return res
         for k in range(case.get("nprog", 30)):
             if k % 6 == 5:
                 # custom boolean mask
@@ -129,73 +238,9 @@ def run_case(case):
                                             "filter_columns_with_nulls": sorted(c for c in fcols_ if c in flat and bool(flat[c].isna().any())),
                                             "ops": sorted({op for g in groups_ for _, op, _ in g}), **info, **C.exc_shape(e)})
                 continue
-            counters["programs_judged"] = counters.get("programs_judged", 0) + 1
-            grids = [int(x) for x in got["rid"].tolist()]
-            gset = set(grids)
-            groups = P.normalise_program(prog)
-            flat_list = bool(prog) and isinstance(prog[0][0], str)
-            pcond = any(c in pf.cats for g in groups for c, _, _ in g)
-            fcols = {c for g in groups for c, _, _ in g}
-            ctx = {"program": desc, "read_columns_multi_page": sorted((set(ocols) | fcols) & mp), "flat_list": flat_list, "n_conditions": sum(len(g) for g in groups), "n_groups": len(groups),
-                   "partition_condition": pcond, "ops": sorted({op for g in groups for _, op, _ in g}), **info}
-            missing = [rids[i] for i in range(n) if verdicts[i] == P.MUST and rids[i] not in gset]
-            extra = [r for r in grids if r in pos and verdicts[pos[r]] == P.REJECT]
-            unknown = [r for r in grids if r not in pos]
-            if missing:
-                i = pos[missing[0]]
-                # can the (test-pinned) 'not in' pruning explain EVERY lost row?  It prunes a row group when a 'not in' list holds the
-                # smallest or the largest value of the column in that group.
-                def _notin_explains(ri):
-                    rg = next((rows_ for rows_ in rg_rows if ri in rows_), None)
-                    if rg is None:
-                        return False
-                    for g in groups:
-                        for c, op, v in g:
-                            if op != "not in" or c not in cols:
-                                continue
-                            cells = [cols[c][j] for j in rg if cols[c][j] is not None]
-                            try:
-                                lo, hi = min(cells), max(cells)
-                                listed = [P.norm(x) for x in v]
-                            except Exception:
-                                continue
-                            if lo in listed or hi in listed:
-                                return True
-                    return False
-                res["failures"].append({"kind": "qualifying_row_not_returned", "n": len(missing), "rid": int(missing[0]),
-                                        "row": {c: repr(cols[c][i]) for g in groups for c, _, _ in g},
-                                        "every_lost_row_in_a_group_whose_bound_is_in_a_not_in_list": all(_notin_explains(pos[r_]) for r_ in missing), **ctx})
-            if extra:
-                i = pos[extra[0]]
-                res["failures"].append({"kind": "non_qualifying_row_returned", "n": len(extra), "rid": int(extra[0]),
-                                        "row": {c: repr(cols[c][i]) for g in groups for c, _, _ in g}, **ctx})
-            if unknown or len(gset) != len(grids):
-                res["failures"].append({"kind": "row_duplicated_or_unknown", "n_unknown": len(unknown), "n_dup": len(grids) - len(gset), **ctx})
-            if [pos[r] for r in grids if r in pos] != sorted(pos[r] for r in grids if r in pos):
-                res["failures"].append({"kind": "rows_out_of_order", **ctx})
-            if cnt != len(got):
-                res["failures"].append({"kind": "count_differs_from_rows_returned", "count": cnt, "rows": len(got), **ctx})
-            # alignment of every requested column with the selected rids
-            if not unknown and len(gset) == len(grids):
-                exp = flat.iloc[[pos[r] for r in grids]][ocols].reset_index(drop=True)
-                fl = T.same_table(exp, got.reset_index(drop=True), check_index=False, cat_strict=False)
-                for f in fl:
-                    f.update(ctx)
-                    f["kind"] = "misaligned_" + f["kind"]
-                    if f.get("column") in flat:
-                        f["col_dtype"] = str(flat[f["column"]].dtype)
-                res["failures"] += fl
-            n_judged = sum(1 for v in verdicts if v != P.DONTCARE)
-            counters["rows_judged"] = counters.get("rows_judged", 0) + n_judged
-            counters["rows_dontcare"] = counters.get("rows_dontcare", 0) + (n - n_judged)
-            counters["rows_selected"] = counters.get("rows_selected", 0) + len(grids)
-            if pcond:
-                counters["programs_with_partition_condition"] = counters.get("programs_with_partition_condition", 0) + 1
-            if flat_list and ctx["n_conditions"] > 1:
-                counters["flat_multi_condition_programs"] = counters.get("flat_multi_condition_programs", 0) + 1
-            if n_judged:
-                fams = tuple(sorted({str(flat[c].dtype)[:6] for g in groups for c, _, _ in g}))
-                feats.add(str((tuple(ctx["ops"]), fams, len(groups), flat_list, pcond, 0 < len(grids) < n)))
+            st = {"res": res, "counters": counters, "feats": feats, "flat": flat, "cols": cols, "rids": rids, "pos": pos, "rg_rows": rg_rows, "mp": mp, "pf": pf,
+                  "info": info, "n": n}
+            _judge(st, prog, desc, got, cnt, ocols, verdicts)
             last = desc
         res["outcome"] = "ok"
         res["nontrivial"] = bool(feats)
@@ -204,6 +249,82 @@ def run_case(case):
         return res
     finally:
         C.cleanup(path)
+
+
+def _judge(st, prog, desc, got, cnt, ocols, verdicts, extra_ctx=None):
+    """Compare one filtered read (and the filtered count) with the row-by-row verdicts of the model."""
+    from vf.mon import predicate as P
+    from vf.mon import tables as T
+    res, counters, feats = st["res"], st["counters"], st["feats"]
+    flat, cols, rids, pos, rg_rows, mp, pf, info, n = st["flat"], st["cols"], st["rids"], st["pos"], st["rg_rows"], st["mp"], st["pf"], st["info"], st["n"]
+    info = dict(info, **(extra_ctx or {}))
+    counters["programs_judged"] = counters.get("programs_judged", 0) + 1
+    grids = [int(x) for x in got["rid"].tolist()]
+    gset = set(grids)
+    groups = P.normalise_program(prog)
+    flat_list = bool(prog) and isinstance(prog[0][0], str)
+    pcond = any(c in pf.cats for g in groups for c, _, _ in g)
+    fcols = {c for g in groups for c, _, _ in g}
+    ctx = {"program": desc, "read_columns_multi_page": sorted((set(ocols) | fcols) & mp), "flat_list": flat_list, "n_conditions": sum(len(g) for g in groups), "n_groups": len(groups),
+           "partition_condition": pcond, "ops": sorted({op for g in groups for _, op, _ in g}), **info}
+    missing = [rids[i] for i in range(n) if verdicts[i] == P.MUST and rids[i] not in gset]
+    extra = [r for r in grids if r in pos and verdicts[pos[r]] == P.REJECT]
+    unknown = [r for r in grids if r not in pos]
+    if missing:
+        i = pos[missing[0]]
+        # can the (test-pinned) 'not in' pruning explain EVERY lost row?  It prunes a row group when a 'not in' list holds the
+        # smallest or the largest value of the column in that group.
+        def _notin_explains(ri):
+            rg = next((rows_ for rows_ in rg_rows if ri in rows_), None)
+            if rg is None:
+                return False
+            for g in groups:
+                for c, op, v in g:
+                    if op != "not in" or c not in cols:
+                        continue
+                    cells = [cols[c][j] for j in rg if cols[c][j] is not None]
+                    try:
+                        lo, hi = min(cells), max(cells)
+                        listed = [P.norm(x) for x in v]
+                    except Exception:
+                        continue
+                    if lo in listed or hi in listed:
+                        return True
+            return False
+        res["failures"].append({"kind": "qualifying_row_not_returned", "n": len(missing), "rid": int(missing[0]),
+                                "row": {c: repr(cols[c][i]) for g in groups for c, _, _ in g},
+                                "every_lost_row_in_a_group_whose_bound_is_in_a_not_in_list": all(_notin_explains(pos[r_]) for r_ in missing), **ctx})
+    if extra:
+        i = pos[extra[0]]
+        res["failures"].append({"kind": "non_qualifying_row_returned", "n": len(extra), "rid": int(extra[0]),
+                                "row": {c: repr(cols[c][i]) for g in groups for c, _, _ in g}, **ctx})
+    if unknown or len(gset) != len(grids):
+        res["failures"].append({"kind": "row_duplicated_or_unknown", "n_unknown": len(unknown), "n_dup": len(grids) - len(gset), **ctx})
+    if [pos[r] for r in grids if r in pos] != sorted(pos[r] for r in grids if r in pos):
+        res["failures"].append({"kind": "rows_out_of_order", **ctx})
+    if cnt != len(got):
+        res["failures"].append({"kind": "count_differs_from_rows_returned", "count": cnt, "rows": len(got), **ctx})
+    # alignment of every requested column with the selected rids
+    if not unknown and len(gset) == len(grids):
+        exp = flat.iloc[[pos[r] for r in grids]][ocols].reset_index(drop=True)
+        fl = T.same_table(exp, got.reset_index(drop=True), check_index=False, cat_strict=False)
+        for f in fl:
+            f.update(ctx)
+            f["kind"] = "misaligned_" + f["kind"]
+            if f.get("column") in flat:
+                f["col_dtype"] = str(flat[f["column"]].dtype)
+        res["failures"] += fl
+    n_judged = sum(1 for v in verdicts if v != P.DONTCARE)
+    counters["rows_judged"] = counters.get("rows_judged", 0) + n_judged
+    counters["rows_dontcare"] = counters.get("rows_dontcare", 0) + (n - n_judged)
+    counters["rows_selected"] = counters.get("rows_selected", 0) + len(grids)
+    if pcond:
+        counters["programs_with_partition_condition"] = counters.get("programs_with_partition_condition", 0) + 1
+    if flat_list and ctx["n_conditions"] > 1:
+        counters["flat_multi_condition_programs"] = counters.get("flat_multi_condition_programs", 0) + 1
+    if n_judged:
+        fams = tuple(sorted({str(flat[c].dtype)[:6] for g in groups for c, _, _ in g}))
+        feats.add(str((tuple(ctx["ops"]), fams, len(groups), flat_list, pcond, 0 < len(grids) < n)))
 
 
 def multi_page_columns(pf):
@@ -235,4 +356,4 @@ coverage_extra = c05.coverage_extra
 
 def required(tier):
     return {"programs_judged": 2000, "masks_compared": 300, "programs_with_partition_condition": 100, "flat_multi_condition_programs": 200,
-            "rows_selected": 5000}
+            "rows_selected": 5000, "kept_handle_edits": 30, "kept_handle_programs_judged": 200}
